@@ -144,6 +144,13 @@ def stepLine (st : St) (line : String) : St × List String :=
       | some (.error r) => ({ st with req := none }, [s!"reject {clsStr r.cls} {repr r}"])
       | some (.ok r) => ({ st with req := some (r, lim), used := storageUsed lim hl {} 0, cap := cap }, [showReq sch r])
     | _, _, _, _, _, _ => (st, ["bad-op"])
+  -- recon <declared length|~> <exempt> <events>: Content-Length vs DATA reconciliation of one request stream
+  | ["recon", d, ex, evs] =>
+    match (if d = "~" then some none else d.toNat?.map some), parseBool ex, parseList parseStreamEv evs with
+    | some declared, some ex, some evs =>
+      let r := rrun declared ex evs
+      (st, [s!"forwarded={r.forwarded} received={r.received} done={if r.done then 1 else 0} reset={if r.reset then 1 else 0}"])
+    | _, _, _ => (st, ["bad-op"])
   -- trailer <maxList> <maxFields> <endStream> <headers>
   | ["trailer", ml, mf, es, hs] =>
     match ml.toNat?, mf.toNat?, parseBool es, parseList parsePair hs with
@@ -233,6 +240,18 @@ def stepLine (st : St) (line : String) : St × List String :=
       | some edits => (st, [s!"ok {showEdits edits} | {showFields (applyEdits edits fs)}"])
       | none => (st, ["none"])
     | _, _ => (st, ["bad-op"])
+  -- h2resp <maxList> <maxFields> <endStream> <ctx|-> <headers>: an HTTP/2 backend's response header block
+  | ["h2resp", ml, mf, es, cx, hs] =>
+    match ml.toNat?, mf.toNat?, parseBool es, parseList parsePair hs with
+    | some ml, some mf, some es, some hl =>
+      let edit : Option (List Field → List Field) := if cx = "-" then some id else (parseCtx cx).map fun c => editResponse c
+      match edit with
+      | none => (st, ["bad-op"])
+      | some e =>
+        match validateResponse { maxListSize := ml, maxFields := mf } es e hl with
+        | .error r => (st, [s!"reject {clsStr r.cls} {repr r}"])
+        | .ok r => (st, [s!"ok {hx (serializeResp r)} body={bodyStr r.body}"])
+    | _, _, _, _ => (st, ["bad-op"])
   -- resp <ctx> <fields>
   | ["resp", cx, fs] =>
     match parseCtx cx, parseList parseField fs with
